@@ -260,3 +260,12 @@ _tab_unit(None, True)
 _tab_unit([1, 3], True)
 _tab_unit([0, 2, 3], False)
 _tab_unit([2, 0, 3], False)          # a selection that is not ascending: column j is band ibands[j]
+
+
+
+# the band groups handed to the calculators (Fermi-sea block + in-range multiplets) are a partition that never cuts a multiplet: C13's unit,
+# registered here as well
+from contracts.C13 import _groups_unit as _c13_groups      # noqa: E402
+_c13_groups(3, True, prop="C15")
+_c13_groups(4, True, prop="C15")
+_c13_groups(4, False, prop="C15")
